@@ -8,7 +8,10 @@ from hypothesis import strategies as st
 from monkeytype.tracing import CallTrace
 from monkeytype.typing import make_typed_dict
 
-ANNOS = [None, None, None, "int", "List[int]", "Optional[str]", '"Helper"', "UserId", 'Dict[str, "Helper"]']
+ANNOS = [None, None, None, "int", "List[int]", "Optional[str]", '"Helper"', "UserId", 'Dict[str, "Helper"]',
+         # source annotations that a type rewriter WOULD change if it were (wrongly) applied to them
+         "Generator[int, None, None]", "Union[int, str, float, bytes, bool, None, List[int]]", "Union[Dict[str, int], Dict[str, str]]",
+         "Union[List[Any], List[int]]"]
 WHERE = ["top", "method", "classmethod", "staticmethod", "property", "inner", "deep", "async", "gen", "asyncmethod", "genmethod",
          "subclassmethod", "substaticmethod", "subproperty"]
 NAMES = ["a", "b", "cc", "data", "x1", "q", "long_parameter_name_number_one", "another_rather_long_parameter_name",
